@@ -210,7 +210,7 @@ def streams(rng, tier):
     # bounded-exhaustive sweeps (one case per chunk)
     W5 = ["MIT", "or", "AND", "(", ")"]
     W7 = W5 + ["WITH", "389-exception"]
-    n5, n7, nc, ne = (7, 5, 5, 7) if q else (10, 7, 7, 9)
+    n5, n7, nc, ne = (8, 5, 5, 7) if q else (10, 7, 7, 9)
     # the eval() component alone against the automaton LicModel.py_eval: every skeleton the first loop can produce, up to length ne
     import itertools
     ename = "eval-exhaustive:all-guard-passing-skeletons-len<=%d(%d)" % (ne, count_guard_passing(ne))
